@@ -74,6 +74,7 @@ let () = run_lines (fun toks ->
      (* native operands, conversions with an explicit previous destination (ModelNative.v) *)
      | "op_add_si" -> h (Model.op_add_siZ k a.(0) a.(1))
      | "op_sub2" -> h (Model.op_sub_siZ k a.(0) a.(1)) ^ " " ^ h (Model.op_rsub_siZ k a.(0) a.(1))
+     | "op_addsub_si" -> h (Model.op_add_siZ k a.(0) a.(1)) ^ " " ^ h (Model.op_sub_siZ k a.(0) a.(1))
      | "op_mul_si" -> h (Model.op_mul_siZ k a.(0) a.(1))
      | "op_div_si" -> h (Model.op_div_siZ thr k a.(0) a.(1))
      | "op_mod_w" -> h (Model.op_mod_wZ thr k a.(0) a.(1))
